@@ -625,7 +625,7 @@ func c19ConnRun(in c19Conn) (V, Verdict) {
 			select {
 			case <-r.opened:
 			case <-ctx.Done():
-				return VS("open"), c19OpenFailure(r, "sender-side channel never opened")
+				return VS("open"), c19OpenFailure(r, in.Chans, "sender-side channel never opened")
 			}
 			break
 		}
@@ -647,7 +647,7 @@ func c19ConnRun(in c19Conn) (V, Verdict) {
 			select {
 			case <-r.opened:
 			case <-ctx.Done():
-				v := c19OpenFailure(r, "sender-side channel never opened")
+				v := c19OpenFailure(r, in.Chans, "sender-side channel never opened")
 				r.fail = &v
 				return
 			}
@@ -655,16 +655,29 @@ func c19ConnRun(in c19Conn) (V, Verdict) {
 			if c.FromAnswerer {
 				rside = 0
 			}
-			select {
-			case <-r.ropened:
-			case <-acceptDied[rside]:
-				v := c19OpenFailure(r, "receiver's acceptDataChannels ended before announcing the channel")
-				r.fail = &v
-				return
-			case <-ctx.Done():
-				v := c19OpenFailure(r, "receiver-side channel never announced/opened")
-				r.fail = &v
-				return
+			died := acceptDied[rside]
+		waitRemote:
+			for {
+				select {
+				case <-r.ropened:
+					break waitRemote
+				case <-died:
+					// no further announcement will come; a channel that has been
+					// announced already still opens (its OnOpen runs in its own goroutine)
+					annMu.Lock()
+					announced := r.remote != nil
+					annMu.Unlock()
+					if !announced {
+						v := c19OpenFailure(r, in.Chans, "receiver's acceptDataChannels ended before announcing the channel")
+						r.fail = &v
+						return
+					}
+					died = nil
+				case <-ctx.Done():
+					v := c19OpenFailure(r, in.Chans, "receiver-side channel never announced/opened")
+					r.fail = &v
+					return
+				}
 			}
 			for _, m := range c.Msgs {
 				b := m.bytes()
@@ -768,11 +781,17 @@ func c19ConnRun(in c19Conn) (V, Verdict) {
 	return obs, verdict
 }
 
-func c19OpenFailure(r *c19ChanRun, what string) Verdict {
+// a channel that never opens: the cause is named narrowly when an in-band
+// DATA_CHANNEL_OPEN above pion/datachannel's 8192-byte buffer went to the same
+// receiving peer (it ends that peer's accept loop for every later channel)
+func c19OpenFailure(r *c19ChanRun, all []c19Chan, what string) Verdict {
 	c := r.spec
-	if !c.Negotiated && len(c.label())+len(c.Protocol) > c19DCEPOpenBudget {
-		return Fail("dcep-open-over-8192-bytes-ends-accept-loop",
-			fmt.Sprintf("%s: label %d bytes + protocol %d bytes + 12 > 8192", what, len(c.label()), len(c.Protocol)))
+	for _, o := range all {
+		if !o.Negotiated && o.FromAnswerer == c.FromAnswerer && len(o.label())+len(o.Protocol) > c19DCEPOpenBudget {
+			return Fail("dcep-open-over-8192-bytes-ends-accept-loop",
+				fmt.Sprintf("%s (label %s): an open with label %d bytes + protocol %d bytes + 12 > 8192 went to the same peer",
+					what, trunc(c.label()), len(o.label()), len(o.Protocol)))
+		}
 	}
 	return Fail("channel-did-not-open", fmt.Sprintf("%s (label %s)", what, trunc(c.label())))
 }
@@ -1008,6 +1027,16 @@ func init() {
 		Quick: 24, Thorough: 300, Parallel: 8, Timeout: 60 * time.Second,
 		Corpus: c19ConnCorpus,
 		Gen:    func(r *Rand, i int) c19Conn { return c19GenConn(r, i, false) },
+		Shrink: c19ConnShrink,
+		Run:    c19ConnRun, Coq: c19ConnCoq,
+	})
+	// the same through a delaying / reordering packet shim under both ICE
+	// sockets: SCTP must still deliver each reliable ordered channel in order
+	Register(Spec[c19Conn]{
+		ID: "C19", Suite: "connshim", CoqImports: []string{"Check.C19"},
+		CoqType: connType, CoqRun: "Check.C19.run_conn",
+		Quick: 6, Thorough: 150, Parallel: 8, Timeout: 90 * time.Second,
+		Gen:    func(r *Rand, i int) c19Conn { return c19GenConn(r, i, true) },
 		Shrink: c19ConnShrink,
 		Run:    c19ConnRun, Coq: c19ConnCoq,
 	})
